@@ -113,6 +113,19 @@ func concOps() []concOp {
 			return fmt.Sprintf("%x", SpecEncode(quietF32(Canon(ReflToIR(slowView(m))))))
 		}},
 		{"CheckInitialized", func(m, _ proto.Message) string { return fmt.Sprint(proto.CheckInitialized(m) == nil) }},
+		{"anyutil.New(shared Any) / Size+Marshal(shared Any)", func(m, _ proto.Message) string {
+			// the shared Any itself is read as a message: packed again, sized and marshalled
+			a := concAny
+			if a == nil {
+				return ""
+			}
+			p, err := anyutil.New(a)
+			if err != nil {
+				return err.Error()
+			}
+			b, _ := proto.Marshal(a)
+			return fmt.Sprintf("%s %x %d %x", p.GetTypeUrl(), p.GetValue(), proto.Size(a), b)
+		}},
 		{"anyutil.Unpack(shared Any, both resolver paths)", func(m, _ proto.Message) string {
 			// a shared Any holding the value: unpacked through the type registry and through the file registry
 			a := concAny
